@@ -32,3 +32,9 @@ claim("C11", "dpmc", "stateless model checking with a status() observer after ev
 claim("C13", "dpmc", "bounded exhaustive fault-sequence enumeration over operation histories (H-seq), metrics oracle",
       "The C04 runs with the metrics oracle: creation instant constant, recycle_count == earlier hand-outs, recycled None until first reuse and monotone, hooks/recycle see the pre-hand-out values, retain sees what Object::metrics() last showed.",
       CORE_NOTE, "DESIGN.md section 5 C13")
+claim("C05", "dpmc", "stateless model checking of the real unmanaged pool: bounded exhaustive schedules (H-conc) and operation histories (H-seq)",
+      "Identity-tagged objects with logged destruction; every schedule (p<=3/4, cancellations as faults) of get/try_get/timeout_get(0)/add/try_add/remove/try_remove/take/return scenarios on pools from new, from_config and From<Vec> (max_size 0-2), and every history of depth 6/8; oracle: each id in exactly one place, never destroyed while open, never handed out twice, pool never above max_size, try_add outcome vs. the range of fill levels during the call, exact status() and stranded get()/add() detection at every rest point, end probe.",
+      CORE_NOTE, "DESIGN.md section 5 C05")
+claim("C12", "dpmc", "stateless model checking: close() against every phase of every unmanaged operation (H-conc) and anywhere in histories (H-seq)",
+      "Panics captured around every call; close() races with try_get/get/timeout_get(0)/remove/try_remove/add/try_add/take/return (p<=3/4) and appears at every position of histories of depth 6/8; after close returned: callers get Closed, add hands the object back, no object stays in the pool at any rest point, later returns are destroyed.",
+      CORE_NOTE, "DESIGN.md section 5 C12")
